@@ -36,6 +36,9 @@ TNest  == HasLine("N") /\ pc[L.s] = "run" /\ nwait = 0 /\ nwait' = L.s /\ UNCHAN
 \* executions stepped by the line tracer also log the return of the engine's put() (line "put"): then puts are not inferred
 HasPuts == \E k \in DOMAIN Lines : Lines[k].e = "put"
 TNestPut == /\ ~HasPuts /\ nwait # 0 /\ Nested(nwait) /\ nwait' = 0 /\ sil' = sil /\ UNCHANGED <<tid, l>>
+\* ... and the completion of the statement that empties the queue after a failure (line "clr")
+HasClrs == \E k \in DOMAIN Lines : Lines[k].e = "clr"
+TClr == HasLine("clr") /\ Clear(L.s) /\ Consume /\ Keep
 TPut == /\ HasLine("put")
         /\ IF nwait = L.s THEN Nested(nwait) /\ nwait' = 0 ELSE Put(L.s) /\ nwait' = nwait
         /\ Consume
@@ -48,11 +51,11 @@ TRet   == HasLine("ret") /\ Ret(L.s) /\ exc[L.s] = L.exc /\ "other" \notin DOMAI
 TFinish == /\ HasLine("end") /\ AllReturned /\ moves = L.moves
            /\ UNCHANGED dvars /\ Consume /\ Keep
 TSilent == /\ sil < SilentBound
-           /\ \E s \in Senders : (~HasPuts /\ Put(s)) \/ Acquire(s) \/ Check(s) \/ Pop(s) \/ Skip(s) \/ Clear(s) \/ Rel(s)
+           /\ \E s \in Senders : (~HasPuts /\ Put(s)) \/ Acquire(s) \/ Check(s) \/ Pop(s) \/ Skip(s) \/ (~HasClrs /\ Clear(s)) \/ Rel(s)
                                    \/ Recheck(s) \/ Yield(s)
            /\ sil' = sil + 1 /\ UNCHANGED <<tid, l>> /\ Keep
 
-TNext == TCall \/ TBegin \/ TPut \/ TNest \/ TNestPut \/ TNestRet \/ TEnd \/ TRet \/ TFinish \/ TSilent
+TNext == TCall \/ TBegin \/ TPut \/ TClr \/ TNest \/ TNestPut \/ TNestRet \/ TEnd \/ TRet \/ TFinish \/ TSilent
 TSpec == TInit /\ [][TNext]_tvars
 
 InvFailed == IF ~Mutex THEN 1 ELSE IF ~ExactlyOnce THEN 2 ELSE IF ~SenderFIFO THEN 3
